@@ -129,6 +129,32 @@ type flowCtx struct {
 	fn        *ssa.Function
 	reachMemo map[[2]int]bool
 	instrIdx  map[ssa.Instruction]int
+	// constBind: integer parameters of fn bound to the constant passed at the call
+	// being examined (p.atLeast(2)): read where a length test compares with them
+	constBind map[*ssa.Parameter]int64
+}
+
+// factNonNeg: a dominating test establishes idx >= 0 (idx < 0 false, idx >= 0 true, ...).
+func (fc *flowCtx) factNonNeg(idx ssa.Value, at ssa.Instruction) bool {
+	for _, f := range factsAt(at.Block()) {
+		c, truth := normFact(f)
+		bo, ok := c.(*ssa.BinOp)
+		if !ok || bo.X != idx {
+			continue
+		}
+		k, isC := constInt(bo.Y)
+		if !isC {
+			continue
+		}
+		switch {
+		case bo.Op == token.LSS && !truth && k >= 0, // !(idx < k), k >= 0
+			bo.Op == token.GEQ && truth && k >= 0,
+			bo.Op == token.GTR && truth && k >= -1,
+			bo.Op == token.LEQ && !truth && k >= -1:
+			return true
+		}
+	}
+	return false
 }
 
 func newFlowCtx(fn *ssa.Function) *flowCtx {
@@ -417,6 +443,11 @@ func (fc *flowCtx) lenAtLeast(x ssa.Value, n int64, at ssa.Instruction) (bool, s
 			continue
 		}
 		k, isConst := constInt(r)
+		if !isConst {
+			if prm, isPrm := r.(*ssa.Parameter); isPrm && fc.constBind != nil {
+				k, isConst = fc.constBind[prm]
+			}
+		}
 		if !isConst {
 			continue
 		}
